@@ -560,6 +560,7 @@ pub(crate) fn cc_drop_contract_resurrected() {
     let (arr, n) = build_pc(x, [py, pz], in_pc);
     let (t0, c0) = havoc_idle(x, in_pc);
     kani::assume(c0 & 0x3fff == 1 && c0 & 0x4000 == 0);
+    g().actions_on = true;
     g().fin_act[0] = ghost::Act::ResurrectSelf;
     let fl = any_flags_not_tracing();
     let sn0 = state(|s| sp::snap(s));
@@ -663,6 +664,18 @@ pub(crate) mod md {
     /// the fat pointer stored in the record / inline (data address part)
     pub(crate) fn vtable_data_addr(p: P) -> usize {
         unsafe { p.as_ref() }.vtable().fat_ptr.as_ptr() as *const u8 as usize
+    }
+    /// A-UNION (declared assumption, L2 weak instances only): re-store the side-record pointer into the
+    /// header union through the union's WIDEST member.  Bytes 0..8 (the only ones the crate reads while
+    /// the record bit is set) are identical to what `get_or_init_metadata` stored; bytes 8..16, which
+    /// the crate leaves undefined, become the object's own vtable pointer.  Without this CBMC cannot
+    /// constant-fold the read of the narrow union member (pointer reassembled from bytes with a
+    /// different pointee type) and every later `dyn` call through the record explodes symbolically.
+    pub(crate) fn normalise_record_ptr<T: Trace + 'static>(b: NonNull<CcBox<T>>, m: M) {
+        let fat: *mut dyn InternalTrace = m.as_ptr() as *mut CcBox<T> as *mut dyn InternalTrace;
+        unsafe {
+            b.as_ref().metadata.set(Metadata { vtable: VTable { fat_ptr: NonNull::new_unchecked(fat) } });
+        }
     }
     pub(crate) fn record_vtable_data_addr(m: M) -> usize {
         unsafe { m.as_ref() }.vtable.fat_ptr.as_ptr() as *const u8 as usize
